@@ -9,7 +9,7 @@ mkdir -p $MC
 rsync -a --delete --exclude .cache --exclude work --exclude .git --exclude replays --exclude evidence /verif/ $MC/verif/
 mkdir -p $MC/verif/.cache $MC/verif/replays $MC/verif/evidence
 sed -i "s#/repo/#$WT/#g" $MC/verif/harness/Cargo.toml
-( cd $WT && git checkout -q -- . && git apply "$PATCH" ) || { echo "patch does not apply"; exit 2; }
+( cd $WT && git checkout -q -- . && git checkout -q --detach $(git -C /repo rev-parse HEAD) && patch -p1 -s --forward < "$PATCH" ) || { echo "patch does not apply"; ( cd $WT && git checkout -q -- . ); exit 2; }
 export CARGO_TARGET_DIR=$MC/target
 # rvlib uses <verif>/.cache/target/debug/rv
 rm -rf $MC/verif/.cache/target; ln -s $MC/target $MC/verif/.cache/target
